@@ -56,6 +56,11 @@ def gen_command(rng, formats):
     names = ["main.asm", "src/prog.asm", "prog", "a.b.asm", ".hidden", "dir.x/main", "out.bin", "notes.txt", "x.mlb"]
     for i in range(ninputs):
         cmd["inputs"].append(rng.choice(names) if i == 0 else "second%d.asm" % i)
+    if len(cmd["inputs"]) >= 2 and rng.random() < 0.3:
+        # a later input named like the output derived from the first (finding F71, repaired: it was overwritten)
+        alt = set_ext(cmd["inputs"][0], rng.choice(["bin", "txt"]))
+        if alt != cmd["inputs"][0]:          # (the same file twice is a different matter: its symbols are declared twice)
+            cmd["inputs"][1] = alt
     for _ in range(rng.choice([1, 1, 2, 2, 3, 4])):
         fmt = rng.choice([None, None] + formats) if rng.random() < 0.9 else rng.choice(["nosuch", "binary,x:1", "annotated,base:3", "hexstr,"])
         cmd["groups"].append({"fmt": fmt, "out": rng.choice([None, None, "o%d.out" % len(cmd["groups"]), "dir/o.bin"]), "print": rng.random() < 0.25})
@@ -114,6 +119,10 @@ def expected(cmd, fmts_ok):
             return ("err-before", None)
     if cmd["color"] in ("maybe", "BARE"):
         return ("err-before", None)
+    # help and version are honoured wherever they appear: nothing is assembled or written (the statement; finding F78, repaired:
+    # a name that cannot be derived was reported first - and this oracle had copied that order)
+    if any(f in ("-h", "-v", "--help", "--version") for f in cmd["flags"]):
+        return ("ok", [])
     writes = []
     for g in cmd["groups"]:
         if g["print"]:
@@ -122,11 +131,10 @@ def expected(cmd, fmts_ok):
             writes.append((g["out"], g["fmt"]))
         elif cmd["inputs"]:
             name = set_ext(cmd["inputs"][0], ext_of(g["fmt"] if g["fmt"] else "binary"))
-            if name == cmd["inputs"][0]:
+            # an output name is never derived that equals an input name
+            if name in cmd["inputs"]:
                 return ("err-before", None)
             writes.append((name, g["fmt"]))
-    if any(f in ("-h", "-v", "--help", "--version") for f in cmd["flags"]):
-        return ("ok", [])
     if not cmd["inputs"]:
         return ("err-before", None)
     if cmd["mode"] == "bad":
